@@ -109,7 +109,8 @@ PROPS = {
                      'host stack overflow from recursion on deeply nested items, allocation failure: outside the envelope (C15)',
                      'termination of the rejection-sampling loop in random_bool_vector is probabilistic (exec_allows_no_decreases_clause)'],
         assumptions=['ENVELOPE: every stack, vector, record and code item is smaller than 2^31-1 (C01\'s stated resource envelope); ring-buffer capacities in 1..2^30',
-                     'float lemma L1 (assume in random_bool_vector) and L2 (axiom on Normal::new): discharged bit-precisely by Kani in the thorough tier'],
+                     'float lemma L1 (assume in random_bool_vector) and L2 (axiom on Normal::new): discharged bit-precisely by Kani in the thorough tier',
+                     'float fact L3 (assume in find_neighbors: edge length >= 1): unchecked (powf)'],
         thorough=True,
     ),
     'C08': dict(
@@ -172,10 +173,13 @@ PROPS = {
     ),
     'C20': dict(
         level='proof',
-        units=['path:topology::Topology::decompose_index', 'nameglob:LIST.NEIGHBOR*'],
-        explanation='decompose_index: digits below the edge length, panic-free for an edge length >= 1; LIST.NEIGHBOR* operand handling and result stack',
-        not_decided=['find_neighbors / euclidean_distance (usize as f32, powf, sqrt, ceil): outside Verus; contains-the-centre, symmetry, monotonicity, agreement with brute-force geometry are NOT decided',
+        units=['path:topology::Topology::*', 'nameglob:LIST.NEIGHBOR*'],
+        explanation='decompose_index: digits below the edge length, panic-free for an edge length >= 1; euclidean_distance == sqrt of the accumulated squared differences (f32 operations uninterpreted), None on a length mismatch; '
+                    'find_neighbors: None for invalid parameters, panic-free, terminating (R7: `usize as f32` / `f32 as usize` go through wrapper functions whose bodies are the casts); LIST.NEIGHBOR* operand handling and result stack',
+        not_decided=['contains-the-centre, symmetry, monotonicity in the radius, agreement with brute-force geometry: depend on powf/sqrt/ceil values (uninterpreted in Verus, over-approximated by CBMC)',
+                     'ascending order / index range of the result: the loop invariant would have to mention `neighbors`, whose element type is only inferred from a later push (rustc: type annotations needed)',
                      'bijectivity of the decomposition (mixed-radix recombination)'],
+        assumptions=['float fact L3 (assume in find_neighbors, NOT checked by any installed tool): for ntotal >= 1, ndim >= 1 the edge length ceil(ntotal^(1/ndim)) is >= 1'],
     ),
     'C15': dict(
         level='proof',
